@@ -15,6 +15,7 @@ LEVEL = 'exploration'
 SHARDS = {'quick': 8, 'thorough': 16}
 TIMEOUT = {'quick': 300, 'thorough': 3300}
 N_HIST = {'quick': 500, 'thorough': 25000}
+N_BIG = {'quick': 8, 'thorough': 200}           # scale regime: worlds with thousands of cells / more than 100 components
 RULE = ('cases: seeded histories of 5-20 adds/removes of named cell components on LineWorld, GridWorld, DiscreteWorld shapes (non-cubic, '
         'with zero extents in any position); sources per add: callable (value encodes (x,y,z)), list, numpy array (int/float/object '
         'dtype), ConstantGenerator, LookupGenerator with a fully 3-nested table (also edited / replaced between construction and use, or re-used for a '
@@ -27,7 +28,7 @@ ASSUMPTIONS = ['removing np.copy is observationally invisible under pandas copy-
                'generators are pure functions of the coordinates', 'F4 (LookupGenerator on low-dimensional worlds) is a known finding']
 FLOORS = {'quick': {'column_comparisons': 8000, 'src_callable': 270, 'src_list': 260, 'src_numpy': 280, 'src_constant': 270,
                     'src_lookup3': 300, 'src_subclassed': 200, 'lookup_table_changed_before_use': 100, 'source_mutated_before_first_read': 200, 'src_lookup_lowdim': 150, 'removals': 400, 'in_place_updates': 200, 're_added_existing_name': 100, 'rejected_unknown_removal': 300, 'source_mutations': 550,
-                    'get_cell_rows': 3000, 'shapes_line': 50, 'shapes_grid': 50, 'shapes_3d': 50, 'shapes_degenerate': 50,
+                    'get_cell_rows': 3000, 'big_worlds': 2, 'many_component_worlds': 2, 'shapes_line': 50, 'shapes_grid': 50, 'shapes_3d': 50, 'shapes_degenerate': 50,
                     'generator_calls_checked': 1900, 'reach:Environments.DiscreteWorld.add_cell_component': 1900,
                     'reach:Environments.LookupGenerator.__call__': 1000},
           'thorough': {'column_comparisons': 400000}}
@@ -300,14 +301,92 @@ def case_history(ctx, case):
         ctx.sample({'kind': 'history', 'i': case['i'], 'world': kind, 'extents': ext, 'trace': trace[:12]})
 
 
+
+def case_big(ctx, case):
+    """Scale regime: (a) worlds with thousands of cells whose callable / list / array sources return different numeric kinds in different
+    regions (ints below a waterline, floats above, bools in a corner); (b) a small world carrying more than a hundred cell components,
+    each from an array that the caller changes afterwards."""
+    rng = ctx.rng('big', case['i'])
+    import warnings
+    import pandas
+    import ECAgent.Core as core
+    import ECAgent.Environments as envs
+    warnings.simplefilter('ignore', pandas.errors.PerformanceWarning)      # pandas' advice about many inserts is not an observation
+    m = core.Model()
+    if case['i'] % 2 == 0:
+        w, h = rng.choice([(128, 64), (90, 60), (70, 70), (5000, 0)])
+        env = envs.GridWorld(m, w, h) if h else envs.LineWorld(m, w)
+        table = [tuple(p_) for p_ in env.cells['pos'].tolist()]
+        n = len(table)
+        cut = rng.randint(n // 2 + 100, n - 50) if n > 4500 else n // 2
+
+        def value(i, p_):
+            if i < 40 and case['i'] % 4 == 0:
+                return bool(p_[0] % 2)
+            return p_[0] + 1000 * p_[1] if i < cut else p_[0] + 1000 * p_[1] + 0.015625     # int below the waterline, float above
+
+        exp = [value(i, p_) for i, p_ in enumerate(table)]
+        idx = {p_: i for i, p_ in enumerate(table)}
+        env.add_cell_component('terrain', lambda pos, cells: value(idx[tuple(pos)], pos))
+        env.add_cell_component('as_list', list(exp))
+        for name in ('terrain', 'as_list'):
+            got = env.cells[name].tolist()
+            ctx.ev()
+            bad = [i for i in range(n) if not (same(got[i], exp[i]))]
+            if bad:
+                raise CaseViolation(f'large world {w}x{h}: component {name!r} differs from its source in {len(bad)} of {n} cells (first: cell id '
+                                    f'{bad[0]} = {table[bad[0]]}: {got[bad[0]]!r} instead of {exp[bad[0]]!r})', waterline=cut)
+        for i in (0, cut - 1, cut, n - 1):
+            x, y, z = table[i]
+            check(same(env.get_cell(x, y, z)['terrain'], exp[i]), f'get_cell{(x, y, z)} in a large world shows the wrong value')
+        ctx.count('big_worlds')
+        ctx.count('big_cells', n)
+    else:
+        env = envs.GridWorld(m, 5, 4)
+        n = 20
+        arrays = {}
+        k = rng.choice([105, 130, 160])
+        for j in range(k):
+            kind = rng.choice(['numpy', 'numpy', 'list', 'callable'])
+            vals = [j * 100 + i for i in range(n)]
+            if kind == 'numpy':
+                arr = np.array(vals, dtype=rng.choice([np.int64, np.float64]))
+                env.add_cell_component(f'layer{j}', arr)
+                arrays[f'layer{j}'] = (arr, vals)
+            elif kind == 'list':
+                L = list(vals)
+                env.add_cell_component(f'layer{j}', L)
+                arrays[f'layer{j}'] = (L, vals)
+            else:
+                env.add_cell_component(f'layer{j}', lambda pos, cells, j=j: j * 100 + pos[0] + 5 * pos[1])
+                arrays[f'layer{j}'] = (None, vals)
+        for name, (src, vals) in arrays.items():        # the caller re-uses its buffers
+            if src is not None:
+                for i in range(n):
+                    src[i] = -1
+        ctx.count('source_mutations', k)
+        for name, (src, vals) in arrays.items():
+            got = env.cells[name].tolist()
+            ctx.ev()
+            if not all(same(g, v) for g, v in zip(got, vals)):
+                raise CaseViolation(f'world with {k} cell components: {name!r} changed together with the caller\'s buffer / differs from its source',
+                                    expected=vals[:6], observed=got[:6])
+        check(sorted(env.cells.columns) == sorted(['pos'] + list(arrays)), 'set of cell components differs')
+        ctx.count('many_component_worlds')
+    ctx.distinct(('big', case['i']))
+
+
 def run_case(ctx, case):
-    case_history(ctx, case)
+    (case_big if case.get('kind') == 'big' else case_history)(ctx, case)
 
 
 def run(ctx):
     for i in range(N_HIST[ctx.tier]):
         if ctx.mine(i) and not ctx.full():
             ctx.run_case({'kind': 'hist', 'i': i}, run_case)
+    for i in range(N_BIG[ctx.tier]):
+        if ctx.mine(i) and not ctx.full():
+            ctx.run_case({'kind': 'big', 'i': i}, run_case)
 
 
 def replay(ctx, case):
